@@ -67,7 +67,7 @@ PROPS['C16'] = dict(
     technique='Verus contract on the extracted calculate_length with the float computations abstracted to uninterpreted functions (which value ends up as the total distance, shape of path / lengths: every path length); Kani harnesses on the real calculate_length with a contract-style stand-in for Pos::length for the numeric facts (bounded in the number of path vertices)',
     level_text='proved (Verus, paths of every length): lengths start at 0 and are never empty; path.len() <= lengths.len() on every exit (the invariant the accessors need), both indexed accesses in range; the path is only truncated, never to nothing; without a requested length one length per vertex and the total is the natural length; with a requested length L the total is EXACTLY L (for L > 0), except: L within EPSILON of the natural length or the stable quirk (last two points equal and L longer) -> natural length kept, single point -> one length. bounded stand-in: calculate_length on unadjusted paths of 0..3 vertices (4 in the thorough tier), every finite f32 coordinate and every finite requested length > 0: total distance exactly L with the two stated exceptions, lengths start at 0 / never decrease / stay finite, truncation keeps path.len() <= lengths.len()',
     level_note='assumed: Euclidean length is finite, >= 0 and 0 for identical points (its numeric value and the geometry of the natural curve are C17, not applicable); Catmull simplification bookkeeping and longer paths not decided',
-    verus=[dict(unit='len', tier='quick')], kani=['curve.kc'],
+    verus=[dict(unit='len', tier='quick'), dict(unit='bez', tier='quick')], kani=['curve.kc'],
     only_prefix=['c16_'],
     kani_functions=['src/section/hit_objects/slider/curve.rs :: fn calculate_length'],
     explanation='see level_text; per-obligation statements in coverage.samples[].states',
@@ -239,15 +239,15 @@ PROPS['C05'] = dict(
     technique='Verus contracts on the extracted driver (DecodeBeatmap::decode, parse_version, parse_first_section, parse_section) against a recursive reference driver over the line sequence, with a ghost log of parser calls; Kani contracts on the three string predicates the driver uses and on Decoder::curr_line',
     level_text='proved (Verus, files of every length, termination included): the sequence of (section parser, line) calls made by DecodeBeatmap::decode is exactly that of the reference driver of the property -- version taken from the first non-blank line if it carries the prefix, otherwise the latest version and that line itself may open a section; everything before the first recognised header skipped; every later line that is neither skipped (blank / comment) nor a recognised header handed to the parser OF THE MOST RECENT recognised header (the Section -> parse_* table is part of the contract); parser errors ignored; an unrecognised bracketed line goes to the current parser and neither opens nor closes a section; sections may repeat in any order. Bounded stand-ins (Kani) for the predicates the proof leaves uninterpreted: Section::try_from_line accepts exactly `[Name]` for the 11 names (every ASCII line up to 15 bytes); should_skip_line is true exactly for empty lines and lines whose first non-blank text is `//` (lines up to 5 bytes over a 5-letter alphabet); a line starting with `[` is never skipped (up to 15 bytes); version-line handling on 8 templates; Decoder::curr_line removes trailing whitespace only (every 3-byte ASCII line); line reading per C10',
     level_note='the reader is modelled by the sequence of lines read_line delivers (C08-C10); rule R11 turns the function items `Self::parse_x` / the fn-pointer parameter into tokens naming the function (Verus has no function pointers); code under #[cfg(feature = "tracing")] is removed (R12, feature off as in the pinned test command); the final `state.into()` conversion is C07',
-    verus=[dict(unit='drv', tier='quick')], kani=['support.kc', 'c05.kc', 'decoder.kc'],
-    only_prefix=['c05_'],
+    verus=[dict(unit='drv', tier='quick'), dict(unit='enc', tier='quick')], kani=['support.kc', 'c05.kc', 'decoder.kc', 'encoding.kc'],
+    only_prefix=['c05_', 'enc_decode_utf16_ignores'],
     kani_functions=['src/section/mod.rs :: impl Section :: fn try_from_line', 'src/decode.rs :: trait DecodeBeatmap :: fn should_skip_line', 'src/format_version.rs :: fn try_version_from_line', 'src/reader/decoder.rs :: impl Decoder :: fn curr_line',
                     'src/decode.rs :: trait DecodeBeatmap :: fn decode / fn parse_version / fn parse_first_section / fn parse_section (recording-impl harnesses, thorough tier)'],
     explanation='see level_text',
     trusted_base=COMMON_TRUST + ['naive_memchr / naive_memrchr stand-ins for core::slice::memchr',
                                  'verus unit drv: Decoder modelled as the sequence of lines it delivers; call of a parser = one entry in a ghost log; header / skip / version predicates uninterpreted (bounded Kani obligations c05_*)',
                                  'R11: function items used as values -> tokens naming the function', 'R12: cfg(feature = "tracing") code removed'],
-    assumptions=['a recognised header line is never a skipped line (bounded Kani obligation c05_header_never_skipped)'],
+    assumptions=['a recognised header line is never a skipped line (bounded Kani obligation c05_header_never_skipped)', 'curr_line returns the line read last: decoding is a function of the line bytes whatever the scratch buffer held (unit enc: buffer cleared before the lossy loop; enc_decode_utf16_ignores_previous_buffer)'],
     not_decided=['the three string predicates beyond their bounds', 'non-UTF-8 encodings are C10'],
 )
 
@@ -269,18 +269,18 @@ PROPS['C01'] = dict(
 PROPS['C04'] = dict(
     category='other',
     technique='Verus contracts on the extracted encoder functions with the writer replaced by a typed emission protocol (rule R10: every write!/writeln!/write_all becomes the sequence of typed emissions it performs; the line grammar and the key/value acceptance table are preconditions of the emission functions) and, for the slider path, by an emission log (rule R7) with a loop invariant over the `,` separators',
-    level_text='proved (Verus, every map value): Beatmap::encode writes the format-version line first and then the eight section headers, once each, in canonical order, with the header texts Section::try_from_line recognises; every line written by encode_general / encode_editor / encode_metadata / encode_difficulty has the shape `Key: value` (bookmarks: `Key: v,v,..`) with a key of that section and a value whose rendered class (integer / 0..3 discriminant / float / text) the parser arm of that key accepts. proved (Verus, control-point lists of every length): the slider path part contains exactly one `,` separator and it is the last path token (decoder grammar `type (| point)* ,`)',
-    level_note='rendered text (core::fmt) is abstracted to the class of the argument type; the acceptance table `accepts` is transcribed from the match arms of the four parse_* functions (parser side pinned per key by the c11_* Kani harnesses); the record lines of [Events] / [TimingPoints] / [Colours] / [HitObjects] other than the slider path are CUT from the units (line counts in evidence): their acceptance is not decided',
-    verus=[dict(unit='c04', tier='quick'), dict(unit='kv', tier='quick')], kani=[],
+    level_text='proved (Verus, every map value): Beatmap::encode writes the format-version line first and then the eight section headers, once each, in canonical order, with the header texts Section::try_from_line recognises; every line written by encode_general / encode_editor / encode_metadata / encode_difficulty has the shape `Key: value` (bookmarks: `Key: v,v,..`) with a key of that section and a value whose rendered class (integer / 0..3 discriminant / float / text) the parser arm of that key accepts. every record line of encode_events (background, breaks) and encode_colors (combo and named colours) has the comma-separated field shape parse_events / Color::from_str accept (field count, event-type discriminant, numeric classes). proved (Verus, control-point lists of every length): the slider path part contains exactly one `,` separator and it is the last path token (decoder grammar `type (| point)* ,`)',
+    level_note='rendered text (core::fmt) is abstracted to the class of the argument type; the acceptance table `accepts` is transcribed from the match arms of the four parse_* functions (parser side pinned per key by the c11_* Kani harnesses); the record lines of [TimingPoints] and [HitObjects] other than the slider path are CUT from the units (line counts in evidence): their acceptance is not decided',
+    verus=[dict(unit='c04', tier='quick'), dict(unit='kv', tier='quick'), dict(unit='rec', tier='quick')], kani=[],
     kani_functions=[],
     explanation='see level_text',
     trusted_base=COMMON_TRUST + ['R7: writer -> emission log; write!/write_all -> emit(token)', 'R10: writer -> typed emission protocol; argument text abstracted to the class of its Rust type; `E as i32` -> as_i32(E)',
                                  'R6: position arithmetic / int-cast comparison / Option<PathType> inequality abstracted as uninterpreted functions',
                                  'section_keys! macro: Display and FromStr of the key enums both come from stringify!(variant)',
-                                 'acceptance table `accepts` (contracts/kv.vc) transcribed from parse_general / parse_editor / parse_metadata / parse_difficulty'],
+                                 'acceptance table `accepts` (contracts/kv.vc) transcribed from parse_general / parse_editor / parse_metadata / parse_difficulty', 'record acceptance `line_ok` (contracts/rec.vc) transcribed from parse_events / parse_colors + Color::from_str'],
     assumptions=['first control point is typed and the list is non-empty (established by the decoder: obligation ho_path_*)',
                  'numeric fields of a decoded map are finite and within the parser limits (C11), audio_lead_in is integral (set from an i32), text fields are single-line'],
-    not_decided=['record lines of Events / TimingPoints / Colours / HitObjects other than the slider path', 'text rendering of numbers (core::fmt)', 'text values containing `//` in comment-trimming sections'],
+    not_decided=['record lines of TimingPoints / HitObjects other than the slider path', 'text rendering of numbers (core::fmt)', 'text values containing `//` in comment-trimming sections'],
 )
 
 NOT_APPLICABLE = {
